@@ -169,6 +169,43 @@ def run_sized(spec, res):
                         res.violation('len-differs-from-iteration', case,
                                       {'len': ln, 'iterated': cnt},
                                       sig={'last_op': cn.split('(')[0], 'indexable': False})
+    # a frozen copy of a reshuffled pipeline is an indexable dataset of its
+    # own: len, iteration and every index agree - also after the pipeline it
+    # was copied from has drawn new orders and further frozen copies exist
+    for n in range(0, 9):
+        for backing in ('dict', 'list'):
+            for pn, pre in pres.items():
+                for sd in range(2):
+                    case = {'n': n, 'backing': backing, 'pre': pn, 'frozen_copy': True,
+                            'seed': sd}
+                    src = ({f'k{i}': i for i in range(n)} if backing == 'dict'
+                           else list(range(n)))
+                    try:
+                        ds = pre(ld.new(src)).shuffle(True, rng=np.random.RandomState(sd))
+                        fz = ds.copy(freeze=True)
+                        if fz.indexable is not True:
+                            continue
+                        seq = list(fz)
+                        list(ds)
+                        other = ds.copy(freeze=True)
+                        it = iter(ds)
+                        next(it, None)
+                        list(other)
+                        ln = len(fz)
+                        byidx = [fz[i] for i in range(ln)]
+                        byneg = [fz[i - ln] for i in range(ln)]
+                        again = list(fz)
+                    except BaseException as e:
+                        res.count('sized_case_not_offered')
+                        continue
+                    res.case(('frozen', n, backing, pn, sd), n >= 2)
+                    res.count('indexable_datasets_checked')
+                    res.count('frozen_copies_checked_with_live_source')
+                    if ln != len(seq) or byidx != seq or byneg != seq or again != seq:
+                        res.violation('index-differs-from-iteration', case,
+                                      {'iterated_first': seq, 'by_index': byidx,
+                                       'iterated_again': again},
+                                      sig={'last_op': 'freeze', 'frozen_copy': True})
     for n in range(0, 9):
         for backing in ('dict', 'list'):
             for pn, pre in pres.items():
